@@ -252,8 +252,11 @@ class DeckMemoryManager(MemoryElement):
         """Callback when a read failed"""
         if mem.id == self.id:
             if addr == self.INFO_SECTION_ADDRESS:
+                tmp_cb = self._query_failed_cb
                 self._clear_query_cb()
                 logger.error('Deck memory query failed')
+                if tmp_cb:
+                    tmp_cb('Deck memory query failed')
             else:
                 tmp_cb = self._read_failed_cb
                 self._clear_read_cb()
